@@ -111,6 +111,47 @@ def gen_scenario(rng, want_safe):
     M = ".".join(progs[0]) or "-"
     return "W=%d J=%s C=%s M=%s%s" % (W, J, Cs, M, extra), safe, fam, feat
 
+def gen_rendezvous(rng):
+    """Job bodies that block until another job's body has ended (w<k>), enqueued back-to-back / nested / from two threads, on pools
+    with enough workers that every schedule of the correct code completes: a queued job with an idle worker is then a lost wake-up
+    of cv_jobs_ (e.g. enqueue() that notifies only when the queue becomes non-empty)."""
+    v = rng.below(6)
+    body = {}; progs = None; feat = ["rendezvous"]
+    if v == 0:      # pair, back-to-back
+        W = rng.range(2, 4); body = {0: ["w1"], 1: []}; enq = ["e0", "e1"]
+    elif v == 1:    # chain A waits B waits C
+        W = rng.range(3, 4); body = {0: ["w1"], 1: ["w2"], 2: []}; enq = ["e0", "e1", "e2"]
+    elif v == 2:    # nested enqueue from inside a job, two waiters for the last job
+        W = rng.range(3, 4); body = {0: ["e1", "e2", "w2"], 1: ["w2"], 2: []}; enq = ["e0"]
+    elif v == 3:    # the two jobs are enqueued by two different threads (racing enqueues)
+        W = rng.range(2, 4); body = {0: ["w1"], 1: []}; enq = None
+        progs = [[], ["e0", "L"], ["e1", "L"]]
+    elif v == 4:    # warm-up job first, so that the workers are in different phases of going idle when the pair arrives
+        W = rng.range(2, 4); body = {0: ["w1"], 1: [], 2: []}; enq = ["e2", "e0", "e1"]
+        if rng.chance(1, 2): enq = ["e2", "L", "e0", "e1"]
+    else:           # waiter enqueued by a job, awaited job enqueued by the client right behind it
+        W = rng.range(2, 4); body = {0: ["e1"], 1: ["w2"], 2: []}; enq = ["e0", "e2"]
+    nextra = rng.below(3)                      # independent extra jobs
+    base = max(body) + 1
+    for j in range(base, base + nextra): body[j] = []
+    if progs is None:
+        C = rng.choice([0, 1, 1, 2])
+        progs = [[] for _ in range(C + 1)]
+        t = rng.below(C + 1); progs[t] = list(enq) + ["L"]
+    for j in range(base, base + nextra):
+        t = rng.below(len(progs)); progs[t].insert(rng.below(len(progs[t]) + 1) if progs[t] and progs[t][-1] != "L" else 0, "e%d" % j)
+    for p in progs:
+        if any(o[0] == "e" for o in p) and p[-1] != "L": p.append("L")
+        if rng.chance(1, 2): p.append("D")
+    if rng.chance(1, 4):
+        j = rng.choice(sorted(body)); body[j] = body[j] + ["x"]; feat.append("throw")
+    extra = ""
+    if rng.chance(1, 5): extra = " init=%d" % rng.below(3); feat.append("init")
+    J = ";".join("%d:%s" % (j, ".".join(body[j])) for j in sorted(body))
+    Cs = ";".join(".".join(p) or "D" for p in progs[1:]) or "-"
+    M = ".".join(progs[0]) or "-"
+    return "W=%d J=%s C=%s M=%s%s" % (W, J, Cs, M, extra), True, "rendezvous", feat
+
 def with_run(sc, sp, st, seed): return "%s sp=%d st=%d seed=%d" % (sc, sp, st, seed)
 
 corpus = [l.strip() for l in open(os.path.join(verif.VERIF, "corpus", "C10", "cases.txt")) if l.strip() and not l.startswith("#")]
@@ -122,13 +163,15 @@ if ck.replay:
     if cases[0].startswith("tsan_stress"):
         tsan_replay = dict(kv.split("=") for kv in cases[0].split()[1:]); cases = corpus[:1]
 else:
-    NSC = 9000 if ck.thorough() else 1300          # scenarios; each is run under several schedules
+    NSC = 9000 if ck.thorough() else 1100          # scenarios; each is run under several schedules
     for k in range(NSC):
         spur = (k % 3 == 2)
-        sc, safe, fam, feat = gen_scenario(rng, want_safe=spur)
+        if k % 8 == 5: sc, safe, fam, feat = gen_rendezvous(rng)
+        else: sc, safe, fam, feat = gen_scenario(rng, want_safe=spur)
         fams[fam] = fams.get(fam, 0) + 1
         for ft in feat: feats[ft] = feats.get(ft, 0) + 1
         nsched = 12 if ck.thorough() else 8
+        if not safe and not ck.thorough(): nsched = 5      # may end in a (legitimate) rest state = one more child process each: fewer schedules
         for i in range(nsched):
             cases.append(with_run(sc, 1 if spur else 0, i % 2, rng.below(1 << 30)))
 casefile = os.path.join(ck.scratch, "cases.txt")
@@ -289,6 +332,8 @@ ck.finish({
             "captured RAII token reports its destruction (and, in some scenarios, enqueues a continuation from its destructor: these scenarios are "
             "outside the LTS's job language and get the direct checks and the rest-state analysis only), InitThread hooks (with yields, and "
             "terminate() during start-up), the default-size constructor, and the observers size()/idle()/has_idle()/thread(i)/done(). "
+            "Rendezvous scenarios (every 8th): job bodies that block until another job's body has ended (pairs, chains, nested enqueues, "
+            "racing enqueuers) on pools with enough workers; in the LTS this is the job operation JWait, enabled only when the awaited job has ended. "
             "Every event of every real trace must be accepted by the extracted Coq transition function (atomic values, notify_one targets, "
             "user payloads are part of the events); a direct checker evaluates the property on the trace; rest states are classified. "
             "non-trivial = at least one job executed and >= 30 events; distinct = distinct event trace. In addition a real-thread stress program "
@@ -299,7 +344,7 @@ ck.finish({
 }, assumptions=[
     "atomics are sequentially consistent and the fences no-ops under the shim: weak-memory effects / data races are outside the Coq model; the happens-before edges the property promises (job effects -> return of loop_until_empty / loop_until_terminate / destructor, parent job -> enqueued job) are covered at run time by harness/C10/tsan_stress.cpp (real threads, plain memory, ThreadSanitizer, both tiers)",
     "std::mutex / std::condition_variable / std::thread behave as the shim (harness/sched/verif_sched.hpp) implements them; the shim is trusted",
-    "a job that throws std::exception is modelled as an ordinary job (the pool's catch block falls through to the bookkeeping); jobs do not block other than in enqueue()/terminate(); the pool is destroyed only after all client threads are joined",
+    "a job that throws std::exception is modelled as an ordinary job (the pool's catch block falls through to the bookkeeping); job bodies block only in enqueue()/terminate() or in a rendezvous on another job's completion (JWait in the LTS; the liveness theorems that need the running jobs to finish carry the hypothesis no_blocked_job, the idle-worker / queued-job theorem does not); the pool is destroyed only after all client threads are joined",
     "closure destruction, the InitThread hook, size()/thread(i) have no event in the LTS: they are examined by the direct trace checker only; idle()/has_idle() loads are compared with the model's idle_",
     "schedules are sampled (random, two strategies), not enumerated; the theorems cover all interleavings of the model",
     "extraction: ExtrOcamlBasic only; nat/list stay Coq inductives",
